@@ -57,8 +57,42 @@ def default_cfg(cram):
                      skip_document_code=none(), strip_ansi_escaping=none(), timeout=none(), wait=none())
 
 
+def drive_document(ctx, args):
+    """generate_testcases(&[outcome with one unexpected line L]) of the format's generator → the format's real document parser"""
+    from props import docs
+    prog = ctx.program
+    line_bytes, escaper, cram = args
+    is_cram = bool(cram.v)
+    cmd = list(ctx.notes.get("expression") or [SInt(ord(c), "char") for c in "cmd"])
+    diff_line = Agg("DiffLine", "UnexpectedLines", [VecBuf([Agg("tuple", None, [mk_int(0, "usize"), VecBuf(list(line_bytes.items), "u8")])])])
+    diff = mk_struct("Diff", lines=VecBuf([diff_line]), count_matched=mk_int(0, "usize"), count_unmatched=mk_int(0, "usize"),
+                     count_output_lines=mk_int(1, "usize"))
+    tc = mk_struct("TestCase", title=StringBuf([SInt(ord(c), "char") for c in "ti"]), shell_expression=StringBuf(cmd), expectations=VecBuf([]), exit_code=none(),
+                   line_number=mk_int(1, "usize"), config=default_cfg(is_cram))
+    out = mk_struct("Output", stderr=Agg("OutputStream", None, [VecBuf([], "u8")]), stdout=Agg("OutputStream", None, [VecBuf(list(line_bytes.items), "u8")]),
+                    exit_code=Agg("ExitStatus", "Code", [mk_int(0, "i32")]))
+    outcome = mk_struct("Outcome", location=none(), output=out, testcase=tc, format=Opaque("format"), escaping=escaper,
+                        result=Agg("Result", "Err", [Agg("TestCaseError", "MalformedOutput", [diff])]))
+    if is_cram:
+        gen = mk_struct("CramTestCaseGenerator", indention=mk_int(2, "usize"))
+        g = ctx.call(find_method(prog, "generators/cram.rs", "generate_testcases"), [new_ref(gen), Slice([new_ref(outcome)])])
+    else:
+        gen = Agg("MarkdownTestCaseGenerator", None, [StringBuf([SInt(ord("s"), "char")])])
+        g = ctx.call(find_method(prog, "generators/markdown.rs", "generate_testcases"), [new_ref(gen), Slice([new_ref(outcome)])])
+    if g.variant != "Ok":
+        return Agg("tuple", None, [SBool(False)])
+    text = Str(list(as_str(g.fields[0]).chars))
+    ctx.notes["generated"] = list(text.chars)
+    r = docs.cram_parse_driver(ctx, [text]) if is_cram else docs.md_parse_driver(ctx, [text])
+    if r.variant != "Ok":
+        return Agg("tuple", None, [SBool(True), SBool(False), Slice([])])
+    return Agg("tuple", None, [SBool(True), SBool(True), Slice(as_items(r.fields[0].fields[1]))])
+
+
 def drive(ctx, args):
     """generate_testcase(outcome with one unexpected line L) → LineParser over the generated lines"""
+    if ctx.notes.get("document_level"):
+        return drive_document(ctx, args)
     prog = ctx.program
     line_bytes, escaper, cram = args
     cmd = list(ctx.notes.get("expression") or [SInt(ord(c), "char") for c in "cmd"])
@@ -114,9 +148,10 @@ def rule_matches(ctx, rule, line_bytes):
     return ctx.call(find_method(ctx.program, f, "matches"), [new_ref(rule), line_bytes])
 
 
-def h_generated(max_u, mode, cram):
+def h_generated(max_u, mode, cram, document_level=False):
     def mk(nu, suffix, nl):
         def setup(ctx):
+            ctx.notes["document_level"] = document_level
             u = [ctx.sym_char("u%d" % i, 1) for i in range(nu)]
             for ch in u:
                 ctx.add(z3.Or([ch.z() == ord(x) for x in ALPHA]))
@@ -184,7 +219,11 @@ def h_generated(max_u, mode, cram):
                 core = core[:-len(" (no-eol)")]          # written by the generator, not part of the line
             if core.endswith(" (escaped)") and not line.rstrip(b"\n").endswith(b" (escaped)"):
                 core = core[:-len(" (escaped)")]         # likewise: the escaper's own marker
-            if fmt == "cram" and (doc.count("\n") < 2 or t != t.rstrip() or core.strip() == ""):
+            if fmt == "cram" and t.startswith("$ "):
+                cls = "command-prefix"
+            elif fmt == "cram" and t.startswith("> "):
+                cls = "continuation-prefix"
+            elif fmt == "cram" and (doc.count("\n") < 2 or t != t.rstrip() or core.strip() == ""):
                 cls = "cram-whitespace-or-empty-line"
             elif re.fullmatch(r"\[[0-9]+\]", t):
                 cls = "exit-code-lookalike"
@@ -206,13 +245,19 @@ def h_generated(max_u, mode, cram):
                 if nu + len(suffix) == 0:
                     continue
                 inputs.append(("L = u(%d) ++ %r newline=%s" % (nu, suffix, nl), mk(nu, suffix, nl)))
-    h = e2.Harness("generated_test_passes_%s_%s" % ("cram" if cram else "markdown", mode.lower()), drive_and_judge, inputs, post2,
+    h = e2.Harness("generated_%s_passes_%s_%s" % ("document" if document_level else "test", "cram" if cram else "markdown", mode.lower()), drive_and_judge, inputs, post2,
                    native="generate_and_validate", judge=judge,
-                   describe="the expectation text written for an output line parses back to one quantifier-free expectation that matches that line; "
-                            "same command, no exit code",
-                   bound="output lines u ++ S: |u| <= %d over %r, S in %s; with/without final newline; %s escaping; %s line-parser mode"
-                         % (max_u, ALPHA, SUFFIXES, mode, "Cram" if cram else "Markdown"))
-    h.models_cls = GenModels
+                   describe=("the whole document written by the format's generator (title, fence / indentation, body) parses with the format's real parser to one "
+                             "test case with the same command, no exit code and one quantifier-free expectation that matches the output line" if document_level else
+                             "the expectation text written for an output line parses back to one quantifier-free expectation that matches that line; "
+                             "same command, no exit code"),
+                   bound="output lines u ++ S: |u| <= %d over %r, S in %s; with/without final newline; %s escaping; %s %s"
+                         % (max_u, ALPHA, SUFFIXES, mode, "Cram" if cram else "Markdown", "generator and document parser" if document_level else "line-parser mode"))
+    if document_level:
+        from props import docs
+        h.models_cls = docs.DocModels
+    else:
+        h.models_cls = GenModels
     return h
 
 
@@ -602,6 +647,10 @@ def run(pid, tier):
                 else:
                     rep.mismatches.append("%s: solver witness %r / %r did not reproduce natively: %s" % (hm.name, out, existing, nv))
             e2.record(rep, hm, resm)
+    # document level: the format's generator (generate_testcases) and the format's document parser
+    for cram in (False, True):
+        hdoc = h_generated(1 if q else 2, "Unicode", cram, document_level=True)
+        e2.process(rep, prog, NAT, hdoc, tier, to_native_args=lambda a: [a[0], "unicode", "cram" if a[2] else "markdown"], max_witnesses=40)
     # shell expressions of several lines
     for cram in (False, True):
         hq = h_generated_expression("Unicode", cram, 2 if q else 3)
